@@ -134,6 +134,9 @@ func vh_SAE() {
 		vAssert(cntp != nil, "C17.renewal-needs-a-live-round")
 		vAssert(2*cnt > nv, "C09|C17.renewal-needs-majority-of-voters")
 		vAssert(vAnd(post.term == sent.Term, mid.state == Leader), "C17.renewal-only-in-the-term-of-the-round")
+		// the lease runs for the configured duration from the renewal, not longer
+		left := lease0.expiration.Sub(vTimeAgo(0))
+		vAssert(vAnd(left > vLeaseDuration-vTimeMargin, left < vLeaseDuration+vTimeMargin), "C17.lease-runs-for-the-configured-duration")
 	}
 	if rd.quorumVerified {
 		vCover("read-verified")
